@@ -379,8 +379,43 @@ Proof.
          [ subst; first [ exfalso; pose proof (A1 _ _ Hx1); lia
                         | rewrite Hth in Hx1; inversion Hx1; subst; rewrite ?Hpc in Hx2; cbn in Hx2;
                           first [ discriminate Hx2
-                                | eexists; split; [apply upd_same | norm_finish; cbn_st; try reflexivity; try (destruct hit; reflexivity)] ] ]
+                                | eexists; split; [apply upd_same | norm_finish; cbn_st; try reflexivity; try exact Hx2; try (destruct hit; reflexivity)] ] ]
          | eexists; split; [rewrite upd_other by assumption; eassumption | assumption] ]
        end; fail).
-  Show.
-Admitted.
+Qed.
+
+Lemma invB_step_unique s l s' :
+  InvA s -> InvB s -> stepf s l = Some s' ->
+  forall t1 t2 th1 th2, threads s' t1 = Some th1 -> threads s' t2 = Some th2 ->
+     pre_done (t_pc th1) = true -> pre_done (t_pc th2) = true -> t1 = t2.
+Proof.
+  intros (A1 & A2 & A3 & A4 & A5 & A6) (T & G & B2 & C4) H.
+  step_inv H; intros t1 t2 th1 th2 H1 H2 P1 P2; cbn [threads with_threads] in H1, H2;
+    upd_destruct; try reflexivity; try (eapply C4; eassumption);
+    cbn_st; try discriminate P1; try discriminate P2;
+    try (destruct c; discriminate);
+    try (norm_finish; cbn_st; try discriminate P1; try discriminate P2; try (destruct hit; discriminate));
+    try (rewrite ?Hpc in *; eapply C4; try eassumption; rewrite ?Hpc; reflexivity);
+    try (symmetry; rewrite ?Hpc in *; eapply C4; try eassumption; rewrite ?Hpc; reflexivity).
+  all: exfalso; pose proof (T _ _ Hth) as Tt;
+    match goal with Hx : threads s ?x = Some ?y, Px : pre_done (t_pc ?y) = true |- _ =>
+      pose proof (T _ _ Hx) as T0; unfold tinv in Tt, T0; rewrite Hpc in Tt; rewrite Px in T0 end;
+    cbn_st; bsplit_hyps; destruct (closed s) eqn:?; cbn_st; congruence.
+Qed.
+
+Lemma invB_step s l s' : InvA s -> InvB s -> stepf s l = Some s' -> InvB s'.
+Proof.
+  intros HA HB H. unfold InvB. split_all.
+  - eapply invB_step_tinv; eassumption.
+  - eapply invB_step_ginv; eassumption.
+  - eapply invB_step_holder; eassumption.
+  - eapply invB_step_unique; eassumption.
+Qed.
+
+Theorem invB_reach w s : reach w s -> InvB s.
+Proof.
+  apply (invariant_reachable2 stepf InvA InvB).
+  - apply invA_reach.
+  - apply invB_init.
+  - intros; eapply invB_step; eassumption.
+Qed.
